@@ -149,9 +149,42 @@ func (vc *VC) run() {
 	vc.entry = entry.clone()
 	// preconditions
 	if vc.fi != nil {
+		if pc := vc.P.pcs[vc.fi.pkg.PkgPath]; pc != nil {
+			vc.addAxioms(vc.fi.pkg, pc)
+		}
 		for _, cl := range vc.fi.fc.Requires {
 			t := vc.clauseTerm(vc.fi, cl, vc.params, nil, entry, entry)
 			vc.addAssume("true", t)
+		}
+		if pc := vc.P.pcs[vc.fi.pkg.PkgPath]; pc != nil {
+			for _, name := range vc.fi.fc.Uses {
+				found := false
+				for _, l := range pc.Lemmas {
+					if l.Name == name && !l.Axiom {
+						found = true
+						t, err := vc.lemmaTerm(vc.fi.pkg, l, false)
+						if err != nil {
+							vc.fail("%v", err)
+						}
+						vc.quantCtx = true
+						vc.addAssume("true", t)
+						vc.assume("lemma " + name + " used as a fact (it is proved as its own obligation)")
+					}
+				}
+				if !found {
+					vc.fail("uses %s: no such lemma", name)
+				}
+			}
+		}
+		for _, cl := range vc.fi.fc.Hints {
+			vc.addAssume("true", vc.clauseTerm(vc.fi, cl, vc.params, nil, entry, entry))
+		}
+		// contracts of the interface methods this method implements (behavioural subtyping)
+		for _, ifi := range vc.P.ifaceContractsFor(vc.fi) {
+			env := vc.ifaceEnv(ifi)
+			for _, cl := range ifi.fc.Requires {
+				vc.addAssume("true", vc.clauseTerm(ifi, cl, env, nil, entry, entry))
+			}
 		}
 	}
 	for _, b := range order {
@@ -1437,6 +1470,7 @@ func (vc *VC) strEqFun() string {
 			"(assert (forall ((a Str) (b Str)) (! (=> (str.eq a b) (= (st.len a) (st.len b))) :pattern ((str.eq a b)))))",
 			"(assert (forall ((a Str)) (! (str.eq a a) :pattern ((str.eq a a)))))",
 			"(assert (forall ((a Str) (b Str)) (! (= (str.eq a b) (str.eq b a)) :pattern ((str.eq a b)))))",
+			"(assert (forall ((a Str) (b Str) (c Str)) (! (=> (and (str.eq a b) (str.eq b c)) (str.eq a c)) :pattern ((str.eq a b) (str.eq b c)))))",
 			"(assert (forall ((a Str) (b Str) (i Int)) (! (=> (and (str.eq a b) (<= 0 i) (< i (st.len a))) (= (select (st.base a) (+ (st.off a) i)) (select (st.base b) (+ (st.off b) i)))) :pattern ((str.eq a b) (select (st.base a) (+ (st.off a) i))))))")
 	}
 	return f
@@ -1490,6 +1524,20 @@ func (vc *VC) ret(x *ssa.Return, st *State, reach Term) {
 		vc.oblige("ensures", fmt.Sprintf("L%d@%s", cl.Line, vc.posStr(x.Pos())), reach, t, x.Pos(), cl.Text)
 		if vc.lastEv != nil {
 			vc.lastEv.RetVals = rv
+		}
+	}
+	for _, ifi := range vc.P.ifaceContractsFor(vc.fi) {
+		env := vc.ifaceEnv(ifi)
+		ires := map[string]Val{}
+		for i, n := range ifi.results {
+			if i < len(rv) {
+				ires[n] = rv[i]
+			}
+		}
+		for _, cl := range ifi.fc.Ensures {
+			vc.quantCtx = false
+			t := vc.clauseTerm(ifi, cl, env, ires, st, vc.entry)
+			vc.oblige("ensures", fmt.Sprintf("%s.L%d@%s", ifi.fc.Key, cl.Line, vc.posStr(x.Pos())), reach, t, x.Pos(), ifi.fc.Key+": "+cl.Text)
 		}
 	}
 	vc.frameCheck(st, reach, x.Pos())
